@@ -30,8 +30,8 @@
      whole-second times (fractional: C08_time_partial), embedded JSON that is
      JSON, 4/16-byte IPs, 6-byte MACs, canonical prefixes - for these the JSON
      side's net text equals the text of the decoder's model of the same net
-     function and needs no escaping; base64 text; integer durations that fit
-     int64 (not MinInt64 / -1).
+     function and needs no escaping; base64 text.  Integer durations need no
+     premise: both builds wrap int64(d / unit) the same way (MinInt64 / -1).
    No field kind of the encoder is left out. *)
 From Coq Require Import QArith Qabs.
 From Verif Require Import Base.Prelude Base.Decimal Base.Utf8 Base.JsonSpec Base.CborSpec.
